@@ -364,6 +364,28 @@ Section Repo.
       end
     end.
 
+  (* the index keys restore fetches below tree [i] ([i] itself excluded) *)
+  Fixpoint fetched (fuel : nat) (i : id) : option (list (btype * id)) :=
+    match fuel with
+    | O => None
+    | S f =>
+      match load_tree i with
+      | None => Some []
+      | Some t =>
+        fold_right (fun n acc =>
+          match acc with
+          | None => None
+          | Some ks =>
+            match n with
+            | NFile (Some c) => Some (map (pair BData) c ++ ks)
+            | NDir (Some s) =>
+              match fetched f s with None => None | Some k2 => Some ((BTree, s) :: k2 ++ ks) end
+            | _ => Some ks
+            end
+          end) (Some []) t
+      end
+    end.
+
   (* the index has no two entries with one (type, id) — then every selector is [lookup] *)
   Fixpoint nodup_keys_aux (l : list (btype * id * iblob)) : bool :=
     match l with
